@@ -23,7 +23,20 @@ func VerifDir() string {
 	}
 	return "/verif"
 }
-func WorkDir() string { return filepath.Join(VerifDir(), ".work") }
+func WorkDir() string {
+	if d := os.Getenv("VERIF_WORK"); d != "" {
+		return d
+	}
+	return filepath.Join(VerifDir(), ".work")
+}
+
+// OutDir is where evidence/ and replays/ are written (VERIF_OUT redirects them for runs against a scratch copy of the repository).
+func OutDir() string {
+	if d := os.Getenv("VERIF_OUT"); d != "" {
+		return d
+	}
+	return VerifDir()
+}
 
 // JqawkBin is the CLI binary built from /repo's working tree by bin/check.
 func JqawkBin() string {
@@ -68,7 +81,7 @@ var ChildModes = map[string]func(args []string){}
 func SpawnChild(name string, stdin string, args ...string) (string, error) {
 	self, _ := os.Executable()
 	cmd := exec.Command(self, append([]string{"--child", name}, args...)...)
-	cmd.Env = append(os.Environ(), "GOMAXPROCS=1")
+	cmd.Env = os.Environ() // no GOMAXPROCS=1 here: a child that repeats a run should see real scheduling
 	cmd.Stdin = strings.NewReader(stdin)
 	out, err := cmd.Output()
 	return string(out), err
@@ -81,7 +94,6 @@ func Main() {
 			fmt.Fprintln(os.Stderr, "unknown child mode", os.Args[2])
 			os.Exit(2)
 		}
-		runtime.GOMAXPROCS(1)
 		f(os.Args[3:])
 		return
 	}
@@ -313,8 +325,8 @@ func coordinate(p *Prop, t Tier, seed int64, nw int) int {
 			known[f.Key] = f
 		}
 	}
-	os.MkdirAll(filepath.Join(VerifDir(), "replays"), 0o755)
-	old, _ := filepath.Glob(filepath.Join(VerifDir(), "replays", p.ID+"-*.json"))
+	os.MkdirAll(filepath.Join(OutDir(), "replays"), 0o755)
+	old, _ := filepath.Glob(filepath.Join(OutDir(), "replays", p.ID+"-*.json"))
 	for _, f := range old {
 		os.Remove(f)
 	}
@@ -347,7 +359,7 @@ func coordinate(p *Prop, t Tier, seed int64, nw int) int {
 			c.Note("violations_not_confirmed_individually", 1)
 			continue
 		}
-		path := filepath.Join(VerifDir(), "replays", fmt.Sprintf("%s-%d.json", p.ID, nviol+1))
+		path := filepath.Join(OutDir(), "replays", fmt.Sprintf("%s-%d.json", p.ID, nviol+1))
 		writeJSON(path, v)
 		confirmed := true
 		if !strings.HasPrefix(v.What, "process death") {
@@ -413,8 +425,8 @@ func coordinate(p *Prop, t Tier, seed int64, nw int) int {
 		"wall_s":      time.Since(start).Seconds(),
 		"violations":  nviol,
 	}
-	os.MkdirAll(filepath.Join(VerifDir(), "evidence"), 0o755)
-	writeJSON(filepath.Join(VerifDir(), "evidence", p.ID+".json"), ev)
+	os.MkdirAll(filepath.Join(OutDir(), "evidence"), 0o755)
+	writeJSON(filepath.Join(OutDir(), "evidence", p.ID+".json"), ev)
 	fmt.Printf("%s %s: cases=%d evaluations=%d states=%d transitions=%d traces=%d nontrivial=%d outcomes=%d exhaustive=%v violations=%d known=%d unreproducible=%d wall=%.1fs\n",
 		p.ID, t, c.Cases, c.Evals, states, c.Transitions, c.Traces, len(c.Nontrivial), len(c.Outcomes), exhaustive, nviol, nknown, c.Unrepro, time.Since(start).Seconds())
 	if nviol > 0 {
